@@ -427,7 +427,7 @@ func registerType(tov reflect.Type) error {
 			n := int(binary.BigEndian.Uint32(packet[:4]))
 			packet = packet[4:]
 
-			if n > len(packet) {
+			if n > len(packet) || allocAllowed(itemType, n, packet) == false {
 				return nil, nil, fmt.Errorf("incorrect data length %d", n)
 			}
 
